@@ -13,6 +13,11 @@ Three routes, all exhaustive over stated lattices:
 Reference model: one global matrix G (rows: references in the first setup's reference order, then the roving sensors
 of setup 1, 2, ... in channel order); setup i sees c[i,k] * G[rows_i, k] in its own channel order; the merged shape
 must be c[0,k] * G[:, k].
+
+Overall level of G (lattice axis LEVELS): the statement quantifies over EVERY global mode-shape matrix, not only over
+unit-normalised ones, so the merge and class routes are also executed with G multiplied by 1e-6, 1e-3, 1e3, 1e6
+(mass-normalised shapes, shapes in physical units), including the collisions "tiny level x smallest admissible factor"
+and "huge level x largest admissible factor".
 """
 import itertools
 
@@ -32,8 +37,8 @@ TECHNIQUE = ("bounded-exhaustive enumeration of sensor layouts (every ordered pl
              "MultiSetup_PoSER.merge_results on every element; plus an end-to-end lattice through SingleSetup/SSIcov")
 LEVEL_TEXT = ("every element of the stated layout lattice is executed on the real functions/classes and compared with the "
               "reference model; real numbers come from a payload alphabet selected by VERIF_SEED")
-RULE = ("a case is one (layout, number of modes, real/complex kind, factor rotation) for the function route, one layout "
-        "for the class route, one (layout, modes, dominant-shift) for the end-to-end route; non-trivial = some setup "
+RULE = ("a case is one (layout, number of modes, real/complex kind, factor rotation, overall level of G) for the function "
+        "route, one (layout, level) for the class route, one (layout, modes, dominant-shift) for the end-to-end route; non-trivial = some setup "
         "i >= 2 with at least one roving sensor has |c[i,k]| != |c[1,k]| for some mode k (so multiplying by the factor "
         "and by its inverse differ); for the end-to-end route the factor is MEASURED on the shapes each setup "
         "identified (least-squares ratio on the reference rows, | |alpha| - 1 | > 0.05); distinct by lattice index")
@@ -50,6 +55,10 @@ ASSUMPTIONS = [
     "end-to-end: real global shapes (normalising a complex shape to a unit component is a complex factor, outside the "
     "statement's 'real factor' premise); SSIcov with hard criteria neutralised, br = 2m+2, 600 samples at 100 Hz; "
     "conditioning guards from the true system (observability and state-Gram condition numbers)",
+    "overall level of the global matrix: G is the unit-level payload matrix (|entries| in [0.2, 1]) times one of "
+    "{1e-6, 1e-3, 1, 1e3, 1e6}; every pre-existing case runs at level 1, the other four levels are covered by additional "
+    "cases (covering design over level x factor rotation x kind, see bounds); levels beyond 1e+-6 and the end-to-end route "
+    "(SSI normalises every identified shape to a unit component, the level of the records is the gain axis) are not varied",
     "tolerances: 1e-10 relative (function/class route), 1e-12 for mean/std, 1e-6 relative for end-to-end shapes "
     "(observed 1e-12), 1e-7 / 1e-6 for end-to-end Fn / Xi",
 ]
@@ -65,6 +74,8 @@ POOL_MODES = 8
 TOL = 1e-10
 TOL_STAT = 1e-12
 FULL_PRODUCT_LIMIT = 144      # two-setup layouts with at most this many placement pairs get every factor rotation
+LEVELS = [1.0e-6, 1.0e-3, 1.0, 1.0e3, 1.0e6]      # overall level of the global mode-shape matrix (tiny / unit / huge)
+NONUNIT = [1.0e-6, 1.0e-3, 1.0e3, 1.0e6]
 
 _POOLS = {}
 
@@ -147,6 +158,24 @@ def variants(nset, nlay, j, modes, thorough, off=0):
     return [(modes[(j // 3) % len(modes)], KINDS[j % 3], (j // (3 * len(modes))) % N_ROT)]
 
 
+def level_variants(nset, nlay, j, modes, thorough, off=0):
+    """(nmodes, kind, rotation, level) with level != 1 executed on layout j in ADDITION to variants().
+
+    Two setups, small slices: every factor rotation, the four non-unit levels cycling with the rotation (start shifting
+    with the layout), kinds and mode counts cycling. Otherwise one case per layout: level, kind and rotation cycle with
+    the layout index with pairwise coprime periods 4, 3, 11, so every (level, kind, rotation) triple occurs within any
+    132 consecutive layouts of a slice sequence."""
+    nm = len(modes)
+    if nset == 2 and nlay <= FULL_PRODUCT_LIMIT:
+        return [(modes[(j + r) % nm], KINDS[(j + r // 4) % 3], r, NONUNIT[(j + off + r) % 4]) for r in range(N_ROT)]
+    q = j + off
+    return [(modes[(q // 4) % nm], KINDS[q % 3], (q + 5) % N_ROT, NONUNIT[q % 4])]
+
+
+def level_tag(level):
+    return f"{level:.0e}"
+
+
 # ---------------------------------------------------------------------------------------------
 # reference model of one layout
 
@@ -204,6 +233,23 @@ def nontrivial_factors(c, nrov):
     return any(nrov[s] > 0 and np.any(np.abs(c[s]) != np.abs(c[0])) for s in range(1, len(nrov)))
 
 
+def range_end_on_later_roving(c, nrov, mag):
+    """Some setup i >= 2 that has roving sensors carries a factor of magnitude mag (an end of the admissible range)."""
+    return any(nrov[s] > 0 and np.any(np.abs(c[s]) == mag) for s in range(1, len(nrov)))
+
+
+def count_level(t, route, level, c, nrov):
+    t.outcomes[f"{route}:level={level_tag(level)}"] += 1
+    if level < 1 and range_end_on_later_roving(c, nrov, 0.05):
+        t.outcomes[f"{route}:tiny-level-x-smallest-factor-on-later-roving-setup"] += 1
+    if level < 1 and range_end_on_later_roving(c, nrov, 20.0):
+        t.outcomes[f"{route}:tiny-level-x-largest-factor-on-later-roving-setup"] += 1
+    if level > 1 and range_end_on_later_roving(c, nrov, 20.0):
+        t.outcomes[f"{route}:huge-level-x-largest-factor-on-later-roving-setup"] += 1
+    if level > 1 and range_end_on_later_roving(c, nrov, 0.05):
+        t.outcomes[f"{route}:huge-level-x-smallest-factor-on-later-roving-setup"] += 1
+
+
 def compare_shape(t, out, G, c, ok_modes, nref, nrov, key_prefix, case):
     """Judge a merged matrix against c[0] * G column by column. Returns True when everything judged agreed."""
     ntot, nmodes = G.shape
@@ -237,16 +283,18 @@ def compare_shape(t, out, G, c, ok_modes, nref, nrov, key_prefix, case):
 # ---------------------------------------------------------------------------------------------
 # route 1: function level
 
-def judge_merge(t, seed, nref, nrov, places, nmodes, kind, rot, shift, nt_id=None):
+def judge_merge(t, seed, nref, nrov, places, nmodes, kind, rot, shift, nt_id=None, level=1.0):
     nset = len(nrov)
     rows, ntot = layout_rows(nref, nrov, places)
     G = global_matrix(seed, kind, ntot, nmodes, shift)
+    if level != 1.0:
+        G = level * G                      # the reference model below is built on this very matrix
     c = factors(nset, nmodes, rot)
     if kind == "int-first":
         c[0, :] = 1.0                      # the first setup is the integer-valued restriction of G itself
     ok_modes = guard_modes(G, nref, kind)
     case = {"route": "merge", "seed": seed, "nref": nref, "nrov": list(nrov), "places": [list(p) for p in places],
-            "nmodes": nmodes, "kind": kind, "rot": rot, "shift": shift}
+            "nmodes": nmodes, "kind": kind, "rot": rot, "shift": shift, "level": level}
     t.states += 1
     if not ok_modes.any():
         t.skipped_by_guard += 1
@@ -261,7 +309,9 @@ def judge_merge(t, seed, nref, nrov, places, nmodes, kind, rot, shift, nt_id=Non
     except Exception as e:
         t.violation(f"raises:{type(e).__name__}:merge_mode_shapes", f"merge_mode_shapes raised {type(e).__name__}: {e}", case)
         return
-    good = compare_shape(t, out, G, c, ok_modes, nref, nrov, "merge", case)
+    good = compare_shape(t, out, G, c, ok_modes, nref, nrov,
+                         "merge" if level == 1.0 else f"merge:level={level_tag(level)}", case)
+    count_level(t, "merge", level, c, nrov)
     nt = nontrivial_factors(c, nrov)
     if nt and nt_id is not None:
         t.nontrivial.add(nt_id)
@@ -315,13 +365,15 @@ def mean_popstd(x):
     return mu, sd / mu
 
 
-def judge_class(t, seed, nref, nrov, places, nmodes, kind, rot, shift, two_algs, nt_id=None):
+def judge_class(t, seed, nref, nrov, places, nmodes, kind, rot, shift, two_algs, nt_id=None, level=1.0):
     nset = len(nrov)
     rows, ntot = layout_rows(nref, nrov, places)
     G = global_matrix(seed, kind, ntot, nmodes, shift)
+    if level != 1.0:
+        G = level * G
     ok_modes = guard_modes(G, nref, kind)
     case = {"route": "class", "seed": seed, "nref": nref, "nrov": list(nrov), "places": [list(p) for p in places],
-            "nmodes": nmodes, "kind": kind, "rot": rot, "shift": shift, "two_algs": bool(two_algs)}
+            "nmodes": nmodes, "kind": kind, "rot": rot, "shift": shift, "two_algs": bool(two_algs), "level": level}
     t.states += 1
     if not ok_modes.any():
         t.skipped_by_guard += 1
@@ -352,7 +404,9 @@ def judge_class(t, seed, nref, nrov, places, nmodes, kind, rot, shift, two_algs,
         return
     for gname, (c, Fn, Xi) in want.items():
         r = res[gname]
-        good &= compare_shape(t, r.Phi, G, c, ok_modes, nref, nrov, "poser", case)
+        good &= compare_shape(t, r.Phi, G, c, ok_modes, nref, nrov,
+                              "poser" if level == 1.0 else f"poser:level={level_tag(level)}", case)
+        count_level(t, "class", level, c, nrov)
         for nm, x, got_mu, got_cv in (("Fn", Fn, r.Fn, r.Fn_cov), ("Xi", Xi, r.Xi, r.Xi_cov)):
             mu, cv = mean_popstd(x)
             for label, a, b in ((nm, got_mu, mu), (nm + "_cov", got_cv, cv)):
@@ -527,6 +581,8 @@ def work_merge(item):
         vs = variants(nset, nlay, j, modes, thorough, sidx)
         for iv, (nm, kd, rot) in enumerate(vs):
             judge_merge(t, seed, nref, nrov, places, nm, kd, rot, shift, nt_id=(lid << 9) | iv)
+        for il, (nm, kd, rot, lev) in enumerate(level_variants(nset, nlay, j, modes, thorough, sidx)):
+            judge_merge(t, seed, nref, nrov, places, nm, kd, rot, shift, nt_id=(lid << 9) | (len(vs) + il), level=lev)
         if j % 3 == 0:
             judge_merge(t, seed, nref, nrov, places, modes[j % len(modes)], "int-first", (j + sidx) % 10, shift, nt_id=(lid << 9) | 511)
         if do_class:
@@ -535,6 +591,13 @@ def work_merge(item):
             rot = (j + sidx) % 10
             two = (j % 4 == 0)
             judge_class(t, seed, nref, nrov, places, nm, kd, rot, shift, two, nt_id=-1 - lid)
+            if j % 3 == 1 or nlay < 3:
+                # additional class-route case at a non-unit level of G (level, kind, rotation cycle with the layout)
+                q = j // 3 + sidx
+                # level: q mod 4, sign half of the factor cycle: next bit of q, position in the cycle: q mod 5, kind: q mod 3
+                # (periods 8, 5, 3: every (level, rotation 0..9, kind) triple within 120 consecutive q)
+                judge_class(t, seed, nref, nrov, places, nm, KINDS[q % 3], (q % 5) + 5 * ((q // 4) % 2), shift,
+                            ((q // 8) % 4 == 0), nt_id=("cl", lid), level=NONUNIT[q % 4])
         if j == part and part == 0 and sidx % 37 == 0:
             t.sample({"route": "merge", "nref": nref, "nrov": list(nrov), "places": [list(p) for p in places],
                       "variants_on_this_layout": len(vs)})
@@ -611,6 +674,13 @@ def explore(ctx):
             "variants_per_layout": f"2 setups and <= {FULL_PRODUCT_LIMIT} layouts in the slice: modes x kinds x 11 rotations; 2 setups, larger slices: "
                                    "modes x kinds x 1 rotation (rotating with the layout index); >= 3 setups: quick 3 kinds x 1 rotation with "
                                    "rotating mode count, thorough 1 variant per layout cycling through modes x kinds x rotations",
+            "levels": LEVELS,
+            "level_axis": "overall level of G: all variants above run at level 1; in addition, on every layout, non-unit levels "
+                          "{1e-6, 1e-3, 1e3, 1e6}: 2 setups and small slices: 11 rotations with the four levels cycling along the "
+                          "rotation; all other slices: one case per layout with (level, kind, rotation) cycling with periods "
+                          "(4, 3, 11); class route: one additional PoSER merge at a non-unit level on every third layout (every "
+                          "layout of slices with fewer than 3 layouts), (level, rotation 0..9, kind) cycling with period 120, every "
+                          "fourth block of 8 with two algorithm groups",
             "layouts": nlayouts, "slices": sidx,
             "class_route": "one PoSER merge per layout with <= 3 setups (thorough: plus the 4-setup layouts of the quick lattice); every 4th with two algorithm groups",
         },
@@ -629,7 +699,10 @@ def explore(ctx):
                 "merge:signs-only", "merge:some-setup-without-roving", "merge:references-not-leading",
                 "merge:references-out-of-order", "flatten:ok", "class:one-algorithm:ok", "class:two-algorithms:ok",
                 "e2e:ok", "e2e:measured-factor>1", "e2e:measured-factor<1", "e2e:measured-factor-negative",
-                "e2e:measured-factor-positive")
+                "e2e:measured-factor-positive",
+                *[f"{r}:level={level_tag(lv)}" for r in ("merge", "class") for lv in LEVELS],
+                *[f"{r}:{a}-level-x-{b}-factor-on-later-roving-setup" for r in ("merge", "class")
+                  for a in ("tiny", "huge") for b in ("smallest", "largest")])
 
 
 def replay(case):
@@ -638,11 +711,13 @@ def replay(case):
     places = [tuple(p) for p in case["places"]]
     nrov = tuple(case["nrov"])
     if r == "merge":
-        judge_merge(t, case["seed"], case["nref"], nrov, places, case["nmodes"], case["kind"], case["rot"], case["shift"])
+        judge_merge(t, case["seed"], case["nref"], nrov, places, case["nmodes"], case["kind"], case["rot"], case["shift"],
+                    level=float(case.get("level", 1.0)))
     elif r == "flatten":
         judge_flatten(t, case["nref"], nrov, places)
     elif r == "class":
-        judge_class(t, case["seed"], case["nref"], nrov, places, case["nmodes"], case["kind"], case["rot"], case["shift"], case["two_algs"])
+        judge_class(t, case["seed"], case["nref"], nrov, places, case["nmodes"], case["kind"], case["rot"], case["shift"], case["two_algs"],
+                    level=float(case.get("level", 1.0)))
     elif r == "e2e":
         judge_e2e(t, case["seed"], case["nref"], nrov, places, case["m"], case["dshift"])
     else:
